@@ -491,7 +491,7 @@ def run(chk):
         "a line only when both values are not None; tests on compared scalar values decide alike for 0 and non-zero values (evaluated, not read off the spelling); optional members of a "
         "stored task result (throughput mean, processing time) are read with a default in both races (reads evaluated on a record without them). Roles are derived from data flow and "
         "positions, not from names: parameters of _line by position, the mode attribute as the one _metrics_table assigns from its flag parameter, races by dataflow from report() along the "
-        "call graph of the reporter (direct calls, nested helpers, aliases, tuples of bound methods; pairs unpacked from a generator over both races or from a helper that returns a pair), "
+        "call graph of the reporter (direct calls, nested helpers, aliases, tuples / lists of bound methods walked by a loop or comprehension, incl. lists grown in place by append / insert / extend / += behind a condition; pairs unpacked from a generator over both races or from a helper that returns a pair), "
         "the writer's data parameters by which table reaches them. A construct inside an extracted helper stands for one instance per call of the helper (label, flag, iterated list, "
         "compared value resolved to the arguments of each call), a construct in a loop / comprehension over a literal table for one instance per row (rows whose guards are false "
         "dropped); helper methods / static methods / module-level functions that _diff and _line call are interpreted together with them (comprehensions, loops over literal tables and "
@@ -599,6 +599,62 @@ def run(chk):
                 return None if els is None or start is None else [ast.Tuple(elts=[ast.Constant(value=i_ + start), el], ctx=ast.Load()) for i_, el in enumerate(els)]
         return None
 
+    _tdefs = {}
+
+    def table_defs(g):
+        """local_defs(g) for reading LITERAL TABLES: a local that holds a list / set display and is GROWN IN PLACE (`sections.append(self.m)` - also under a condition -,
+        `.insert(i, x)`, `.add(x)`, `.extend(<literal table>)`: a table built statement by statement instead of in one display, optional rows appended behind a test) stands for
+        the display of EVERY element it may hold (each element is one instance; order and the gating condition do not matter to what an instance must satisfy; an element
+        that is taken out again behind a test stays a possible row). A local that is changed in a way this cannot read (extended by a non-literal, elements replaced by item /
+        slice assignment, `del`, `clear()`) is dropped: its table is not literal (not recognised)."""
+        if id(g) in _tdefs:
+            return _tdefs[id(g)]
+        defs = dict(local_defs(g))
+        grown, unreadable = {}, set()
+        # `sections += [self.m]` (N1: also `sections = sections + [self.m]`) grows the display the name was bound to by its only plain assignment
+        stores = [x.id for x in walk_body(g) if isinstance(x, ast.Name) and isinstance(x.ctx, ast.Store)]
+        augs = {}
+        for n in walk_body(g):
+            if isinstance(n, ast.AugAssign) and isinstance(n.target, ast.Name):
+                augs.setdefault(n.target.id, []).append(n)
+        for name, ns in augs.items():
+            first = [n for n in walk_body(g) if isinstance(n, ast.Assign) and len(n.targets) == 1 and isinstance(n.targets[0], ast.Name) and n.targets[0].id == name]
+            if len(first) == 1 and isinstance(first[0].value, ast.List) and stores.count(name) == 1 + len(ns) and name not in params_of(g):
+                defs[name] = first[0].value
+                for n in ns:
+                    els = literal_elements(n.value, {k_: v_ for k_, v_ in defs.items() if k_ != name}) if isinstance(n.op, ast.Add) else None
+                    if els is None and not (isinstance(n.op, ast.Add) and isinstance(n.value, (ast.List, ast.Tuple)) and not n.value.elts):
+                        unreadable.add(name)
+                    grown.setdefault(name, []).extend(els or [])
+        for n in walk_body(g):
+            if isinstance(n, ast.Call) and isinstance(n.func, ast.Attribute) and isinstance(n.func.value, ast.Name) and isinstance(defs.get(n.func.value.id), (ast.List, ast.Set)):
+                name, op = n.func.value.id, n.func.attr
+                plain_args = not n.keywords and not any(isinstance(a_, ast.Starred) for a_ in n.args)
+                if op in ("append", "add") and plain_args and len(n.args) == 1:
+                    grown.setdefault(name, []).append(n.args[0])
+                elif op == "insert" and plain_args and len(n.args) == 2:
+                    grown.setdefault(name, []).append(n.args[1])
+                elif op in ("extend", "update") and plain_args and len(n.args) == 1:
+                    els = literal_elements(n.args[0], {k_: v_ for k_, v_ in defs.items() if k_ != name})
+                    if els is None and not (isinstance(n.args[0], (ast.List, ast.Tuple, ast.Set)) and not n.args[0].elts):
+                        unreadable.add(name)
+                    grown.setdefault(name, []).extend(els or [])
+                elif op in ("remove", "pop", "discard", "sort", "reverse", "index", "count", "copy"):
+                    pass  # an element taken out behind a test (`if not self.show_x: sections.remove(self.m)`) / a re-ordering: the display still lists every element it MAY hold
+                elif op in ("clear", "__setitem__", "__delitem__", "difference_update", "intersection_update", "symmetric_difference_update"):
+                    unreadable.add(name)
+            elif isinstance(n, (ast.Subscript, ast.Name)) and isinstance(n.ctx, (ast.Store, ast.Del)) and not (isinstance(n, ast.Name) and isinstance(n.ctx, ast.Store)):
+                b_ = n.value if isinstance(n, ast.Subscript) else n
+                if isinstance(b_, ast.Name) and isinstance(defs.get(b_.id), (ast.List, ast.Set)):
+                    unreadable.add(b_.id)
+        for name, extra in grown.items():
+            if name not in unreadable and extra:
+                defs[name] = ast.List(elts=list(defs[name].elts) + extra, ctx=ast.Load())
+        for name in unreadable:
+            defs.pop(name, None)
+        _tdefs[id(g)] = defs
+        return defs
+
     def bind_target(t, el):
         """{loop variable: element expression} of one element of a literal table bound to a loop target (nested tuple targets included), None when it does not fit."""
         if isinstance(t, ast.Name):
@@ -619,7 +675,7 @@ def run(chk):
         names of all loop variables of such tables); rows is [{}] outside such a loop and None when a row cannot be bound to the loop target."""
         rows, names = [{}], set()
         g_ = source.enclosing_func(c)
-        defs = local_defs(g_) if g_ is not None else {}
+        defs = table_defs(g_) if g_ is not None else {}
         prev = c
         for a in source.ancestors(c):
             if isinstance(a, (ast.FunctionDef, ast.AsyncFunctionDef, ast.Lambda, ast.ClassDef)):
@@ -627,8 +683,12 @@ def run(chk):
             tables = []
             if isinstance(a, ast.For) and not any(prev is s_ for s_ in a.orelse) and prev is not a.iter:
                 tables.append((a.target, a.iter))
-            elif isinstance(a, (ast.ListComp, ast.SetComp, ast.GeneratorExp, ast.DictComp)) and not isinstance(prev, ast.comprehension):
-                tables += [(gen.target, gen.iter) for gen in a.generators]
+            elif isinstance(a, (ast.ListComp, ast.SetComp, ast.GeneratorExp, ast.DictComp)):
+                # the element is evaluated per row of every generator; the iterable of generator i per row of the generators before it (`row for section in sections for row in
+                # section(...)`), its conditions per row of generator i as well
+                k_ = next((i_ for i_, gen in enumerate(a.generators) if gen is prev), None)
+                scope = a.generators if k_ is None else a.generators[:k_ + (0 if any(x is c for x in ast.walk(prev.iter)) else 1)]
+                tables += [(gen.target, gen.iter) for gen in scope]
             for target, it_ in tables:
                 els = literal_elements(it_, defs)
                 if els is None:
@@ -2800,4 +2860,54 @@ VARIANTS += [
      V("", "keep", _R, _MT_DEF, '    def _print_race(self, title, race):\n        print_internal(title)\n        print_internal("  Race ID: %s" % race.race_id)\n'
        '        print_internal("  Race timestamp: %s" % race.race_timestamp)\n        if race.challenge_name:\n            print_internal("  Challenge: %s" % race.challenge_name)\n'
        '        print_internal("  Car: %s" % race.car_name)\n\n' + _MT_DEF)],
+]
+
+# ---- hardening round 4 (benign b9): the sections of the table as LISTS of bound methods that are grown in place (optional sections appended behind their condition) and walked by loops ----
+_MT_BODY_RE = r"        metrics_table = \[\]\n        metrics_table\.extend\(self\._report_total_times\(.*?(?=        return metrics_table\n\n    def _write_report)"
+_RACE_SECTIONS = ("_report_total_times", "_report_ml_processing_times", "_report_gc_metrics", "_report_disk_usage", "_report_segment_memory", "_report_segment_counts",
+                  "_report_transform_processing_times", "_report_ingest_pipeline_counts", "_report_ingest_pipeline_times", "_report_ingest_pipeline_failed")
+
+
+def _section_lists(race_args="baseline_stats, contender_stats", task_args="baseline_stats, contender_stats, t", member="t in contender_stats.tasks()", grow="append"):
+    if grow == "append":
+        tasks = ("        task_sections = [self._report_throughput, self._report_latency, self._report_service_time]\n        if self.show_processing_time:\n"
+                 "            task_sections.append(self._report_processing_time)\n        task_sections.append(self._report_error_rate)\n")
+    elif grow == "insert":
+        tasks = ("        task_sections = [self._report_throughput, self._report_latency, self._report_service_time, self._report_error_rate]\n        if self.show_processing_time:\n"
+                 "            task_sections.insert(3, self._report_processing_time)\n")
+    else:
+        tasks = ("        task_sections = []\n        task_sections.extend((self._report_throughput, self._report_latency, self._report_service_time))\n        if self.show_processing_time:\n"
+                 "            task_sections += [self._report_processing_time]\n        task_sections.extend([self._report_error_rate])\n") if grow == "extend" else grow
+    return ("        race_sections = [\n" + "".join(f"            self.{m},\n" for m in _RACE_SECTIONS) + "        ]\n"
+            "        if baseline_stats.disk_usage_total and contender_stats.disk_usage_total:\n            race_sections.append(self._report_disk_usage_stats_per_field)\n\n" + tasks +
+            "\n        metrics_table = []\n        for race_section in race_sections:\n            metrics_table.extend(race_section(" + race_args + "))\n\n"
+            "        for t in baseline_stats.tasks():\n            if " + member + ":\n                for task_section in task_sections:\n"
+            "                    metrics_table.extend(task_section(" + task_args + "))\n")
+
+
+_SECTION_LOOP = "                for task_section in task_sections:\n                    metrics_table.extend(task_section(baseline_stats, contender_stats, t))\n"
+
+
+def _section_comp(args="baseline_stats, contender_stats, t"):
+    return "                metrics_table += [row for task_section in task_sections for row in task_section(" + args + ")]\n"
+
+
+VARIANTS += [
+    V("h4 sections as two lists of bound methods, optional sections appended behind their condition, walked by loops (benign b9)", "keep", _R, _MT_BODY_RE, _section_lists(), regex=True),
+    V("h4 section lists: the optional per-task section inserted at its position", "keep", _R, _MT_BODY_RE, _section_lists(grow="insert"), regex=True),
+    V("h4 section lists: built by extend() of displays and `+=` from an empty list", "keep", _R, _MT_BODY_RE, _section_lists(grow="extend"), regex=True),
+    V("h4 section lists: the optional per-task section removed again when it is switched off", "keep", _R, _MT_BODY_RE, _section_lists(
+        grow="        task_sections = [self._report_throughput, self._report_latency, self._report_service_time, self._report_processing_time, self._report_error_rate]\n"
+             "        if not self.show_processing_time:\n            task_sections.remove(self._report_processing_time)\n"), regex=True),
+    V("h4 section lists: races exchanged at the call of the per-task sections", "break", _R, _MT_BODY_RE, _section_lists(task_args="contender_stats, baseline_stats, t"), "O20.2", regex=True),
+    V("h4 section lists: races exchanged at the call of the race sections (incl. the appended one)", "break", _R, _MT_BODY_RE, _section_lists(race_args="contender_stats, baseline_stats"), "O20.2", regex=True),
+    V("h4 section lists: per-task sections for the tasks MISSING in the contender", "break", _R, _MT_BODY_RE, _section_lists(member="t not in contender_stats.tasks()"), "O20.5", regex=True),
+    V("h4 section lists: the per-task sections walked by a nested comprehension", "keep", _R, _MT_BODY_RE, _section_lists().replace(_SECTION_LOOP, _section_comp()), regex=True),
+    V("h4 section lists walked by a nested comprehension: races exchanged at the call", "break", _R, _MT_BODY_RE,
+      _section_lists().replace(_SECTION_LOOP, _section_comp("contender_stats, baseline_stats, t")), "O20.2", regex=True),
+    V("h4 section lists: per-task sections for every baseline task", "break", _R, _MT_BODY_RE, _section_lists(member="t in baseline_stats.tasks()"), "O20.5", regex=True),
+    # the appended section is the only one that is handed the races the wrong way round: detected only when the appended element is a row of the table
+    V("h4 section lists: the appended section is called separately with the races exchanged", "break", _R, _MT_BODY_RE,
+      _section_lists().replace("        for t in baseline_stats.tasks():\n", "        late_sections = []\n        late_sections.append(self._report_disk_usage_stats_per_field)\n"
+                               "        for late_section in late_sections:\n            metrics_table.extend(late_section(contender_stats, baseline_stats))\n        for t in baseline_stats.tasks():\n"), "O20.2", regex=True),
 ]
